@@ -238,6 +238,16 @@ class Log:
         same = cur_is_undone or (
             cur.kind != UNCREATE and rec.kind != UNCREATE
             and cur.data == rec.data)
+        if not same and isinstance(cur.data, tuple) and rec.kind == DATA:
+            # `cur` was produced by a resolution earlier in this undo
+            # transaction: the storage compares bytes, and a record with
+            # the same state can only be the product of the same merge
+            try:
+                from . import objs
+                same = objs.canon_state(
+                    objs.decode_record(rec.data)[1]) == cur.data[1]
+            except Exception:       # noqa: B902
+                same = False
         both_gone = (cur.kind == UNCREATE and rec.kind == UNCREATE)
         if same or both_gone:
             # the property is silent when the current state is an
